@@ -734,10 +734,13 @@ func lexSoyDocParam(l *lexer) {
 	for {
 		var r = l.next()
 		if isSpaceEOL(r) || r == eof {
-			l.pos--
+			// back up over the delimiter (eof has no width: next did not advance).
+			if r != eof {
+				l.pos--
+			}
 			l.emit(itemIdent)
 			// don't skip newlines. the outer routine needs to know about it
-			if isSpace(r) || r == eof {
+			if isSpace(r) {
 				l.pos++
 			}
 			l.ignore()
